@@ -11,6 +11,13 @@
 (*                 document; nil variables;                                 *)
 (*                 a nil context; a missing operation name (at least one    *)
 (*                 parameter degenerate)                                    *)
+(*   Mode "subcyc": subscription documents whose ROOT selection spreads     *)
+(*                 fragments that spread one another - directly, through    *)
+(*                 typed / untyped / directive-carrying inline fragments -  *)
+(*                 in every combination of two fragment bodies of <= 2      *)
+(*                 pieces (cycles of length 1 and 2 included), run against  *)
+(*                 S1 with M as subscription root: the root selection of a  *)
+(*                 subscription is collected by its own routine             *)
 (* Every sequence is handed as RequestString to Do / Subscribe /           *)
 (* PlanCache.Get and, when it parses, as an UNVALIDATED document to        *)
 (* ValidateDocument / PlanQuery / Execute / printer.Print.  The predicate  *)
@@ -39,12 +46,19 @@ DegenCases ==
            vars : {"ok", "nil"}, ctx : {"ok", "nil"}, op : {"", "Nope"}] :
       c.schema # "ok" \/ c.doc # "ok" \/ c.vars # "ok" \/ c.ctx # "ok" \/ c.op # "" }
 
+SubPieces == <<"...A", "...B", "... on M { ...A }", "... on M { ...B }", "... { ...A }",
+               "... @include(if: true) { ...B }", "a">>
+SubBodies == { <<SubPieces[i]>> : i \in 1..Len(SubPieces) }
+             \cup { <<SubPieces[i], SubPieces[j]>> : i, j \in 1..Len(SubPieces) }
+
 VARIABLE seq
-Init == IF Mode = "degen" THEN seq \in { <<c>> : c \in DegenCases } ELSE seq = <<>>
-Next == Mode # "degen" /\ Len(seq) < L /\ \E i \in 1..Len(Alphabet) : seq' = Append(seq, Alphabet[i])
+Init == IF Mode = "subcyc" THEN seq \in { <<x, y>> : x \in SubBodies, y \in SubBodies } ELSE
+        IF Mode = "degen" THEN seq \in { <<c>> : c \in DegenCases } ELSE seq = <<>>
+Next == Mode \notin {"degen", "subcyc"} /\ Len(seq) < L /\ \E i \in 1..Len(Alphabet) : seq' = Append(seq, Alphabet[i])
 Spec == Init /\ [][Next]_seq
 
-Emit == IF Mode = "degen" THEN PrintT(<<"VEC", ToJson([mode |-> Mode, case |-> seq[1]])>>)
+Emit == IF Mode = "subcyc" THEN PrintT(<<"VEC", ToJson([mode |-> Mode, a |-> seq[1], b |-> seq[2]])>>) ELSE
+        IF Mode = "degen" THEN PrintT(<<"VEC", ToJson([mode |-> Mode, case |-> seq[1]])>>)
         ELSE PrintT(<<"VEC", ToJson([mode |-> Mode, seq |-> seq])>>)
 ASSUME PrintT(<<"SCHEMA", ToJson(S1)>>)
 =============================================================================
